@@ -418,10 +418,10 @@ func runExec(in Input) Obs {
 			if st.Op.K == "x_where_group" && st.Op.H >= 0 && st.Op.H < len(handles) {
 				grp = handles[st.Op.H]
 			}
-			handles = append(handles, applyX(parent, st.Op, grp))
+			handles = append(handles, guard(parent, func() *gorm.DB { return applyX(parent, st.Op, grp) }))
 			paths = append(paths, append(append([]Step(nil), paths[p]...), st))
 		case "sess":
-			handles = append(handles, applySess(parent, st.Sess))
+			handles = append(handles, guard(parent, func() *gorm.DB { return applySess(parent, st.Sess) }))
 			paths = append(paths, append(append([]Step(nil), paths[p]...), st))
 		case "abandon":
 			handles = append(handles, parent)
@@ -715,7 +715,23 @@ func applySess(db *gorm.DB, k string) *gorm.DB {
 	return db.Session(cfg)
 }
 
+// guard: a panic inside gorm is an observation of the case (an error on the resulting handle), never
+// the end of the run
+func guard(fallback *gorm.DB, f func() *gorm.DB) (tx *gorm.DB) {
+	defer func() {
+		if r := recover(); r != nil {
+			tx = fallback.Session(&gorm.Session{NewDB: true})
+			tx.Error = fmt.Errorf("PANIC %s", ptrRe.ReplaceAllString(fmt.Sprint(r), "0xPTR"))
+		}
+	}()
+	return f()
+}
+
 func applyFin(db *gorm.DB, f *Fin) *gorm.DB {
+	return guard(db, func() *gorm.DB { return applyFin0(db, f) })
+}
+
+func applyFin0(db *gorm.DB, f *Fin) *gorm.DB {
 	switch f.K {
 	case "find":
 		return db.Find(&[]T{})
@@ -820,10 +836,10 @@ func runHistory(in Input) Obs {
 		parent := handles[p]
 		switch st.K {
 		case "derive":
-			handles = append(handles, e.apply(parent, handles, st.Op))
+			handles = append(handles, guard(parent, func() *gorm.DB { return e.apply(parent, handles, st.Op) }))
 			paths = append(paths, append(append([]Step(nil), paths[p]...), st))
 		case "sess":
-			handles = append(handles, applySess(parent, st.Sess))
+			handles = append(handles, guard(parent, func() *gorm.DB { return applySess(parent, st.Sess) }))
 			paths = append(paths, append(append([]Step(nil), paths[p]...), st))
 		case "abandon":
 			handles = append(handles, parent)
@@ -1692,11 +1708,19 @@ func main() {
 
 	add := func(kind string, in Input) {
 		var o Obs
-		if in.Exec {
-			o = runExec(in)
-		} else {
-			o = runHistory(in)
-		}
+		func() {
+			// last resort: whatever escapes the per-call guards is still an observation of THIS case
+			defer func() {
+				if r := recover(); r != nil {
+					o = Obs{Fins: []FinObs{{Step: -1, SQL: "CRASH " + ptrRe.ReplaceAllString(fmt.Sprint(r), "0xPTR"), Err: "the history crashed"}}}
+				}
+			}()
+			if in.Exec {
+				o = runExec(in)
+			} else {
+				o = runHistory(in)
+			}
+		}()
 		out.Add(lib.Case{Term: term(in, o), JSON: map[string]interface{}{"input": in, "observed": o},
 			Sig: sig(in), Kind: kind, Shape: shape(in), Nontriv: nontrivial(in)})
 		out.Count("steps", fmt.Sprint(len(in.Steps)/10*10))
